@@ -156,7 +156,7 @@ def run_job(env, job):
             doc = doc[:info[k]['date_start']] + sym.leaf(3, TXT, TXT) + doc[info[k]['date_end']:]
         else:
             doc = doc[:info[k]['date_start']] + doc[info[k]['date_end']:]
-        return run_harness(env, PKG, 'VerifC17Malformed', [Str(doc)], sym.assume, unwind=len(doc) + 60,
+        return run_harness(env, PKG, 'VerifC17Malformed', [Str(doc), len(entries) if job['what'] == 'indent' else 0], sym.assume, unwind=len(doc) + 60,
                            sample=dict(malformed=job['what'], entry=k, entries=sh['entries']))
     if job['kind'] == 'full':
         expect = sum((i['dump'] for i in info), ())
@@ -198,8 +198,8 @@ def validation_calls(env, seed):
     calls = [('VerifC17Full', [e1, 1, d1, DATES[0]]), ('VerifC17Full', [e1 + b'\n' + e1, 2, d1 + d1, DATES[0] + b'\x00' + DATES[0]]),
              ('VerifC17Cut', [e1[:-1], 0, True, False, b'']), ('VerifC17Cut', [e1[:30], 0, True, False, b'']), ('VerifC17Cut', [e1 + b'\n', 1, False, False, d1]),
              ('VerifC17Cut', [e1 + b'\nhel', 1, True, False, d1]),
-             ('VerifC17Malformed', [b' ' + e1]), ('VerifC17Malformed', [e1 + b'\n ' + e1]), ('VerifC17Malformed', [e1[e1.index(b'\n') + 1:]]),
-             ('VerifC17Malformed', [e1.replace(b'Mon, 02 Jan 2006 15:04:05 -0700', b'yesterday')]), ('VerifC17Malformed', [e1.replace(b'Mon, 02 Jan 2006 15:04:05 -0700', b'')])]
+             ('VerifC17Malformed', [b' ' + e1, 1]), ('VerifC17Malformed', [e1 + b'\n ' + e1, 2]), ('VerifC17Malformed', [e1[e1.index(b'\n') + 1:], 0]),
+             ('VerifC17Malformed', [e1.replace(b'Mon, 02 Jan 2006 15:04:05 -0700', b'yesterday'), 0]), ('VerifC17Malformed', [e1.replace(b'Mon, 02 Jan 2006 15:04:05 -0700', b''), 0])]
     return calls
 
 
